@@ -131,13 +131,17 @@ def run(tier, seed):
     # unknown output modes
     lib = C._import_lib()
     for bad in ("nope", "SQL", "postgresql", "", "hql "):
-        try:
-            lib.DDLParser("create table a (b int);").run(output_mode=bad)
-            V.mismatch({"problem": "unknown output_mode accepted", "mode": bad}, paths=["bad_mode"])
-        except BaseException as e:  # noqa
-            names = [c.__name__ for c in type(e).__mro__]
-            if "SimpleDDLParserException" not in names or not all(m in str(e) for m in ("hql", "mysql", "bigquery", "sql")):
-                V.mismatch({"problem": "unknown output_mode: wrong exception or message", "mode": bad, "error": [names[:3], str(e)[:200]]}, paths=["bad_mode"])
+        # whatever the script holds and whatever `silent` says: the exception is the one that names the valid modes
+        for ddl in ("create table a (b int);", "create table a (b int);\nSELECT 1;\n", "CREATE VIEW v AS SELECT 1;\ncreate table a (b int, PRIMARY);\n", ""):
+            for ctor in ({}, {"silent": False}):
+                try:
+                    lib.DDLParser(ddl, **ctor).run(output_mode=bad)
+                    V.mismatch({"problem": "unknown output_mode accepted", "mode": bad, "ddl": ddl, "ctor": ctor}, paths=["bad_mode"])
+                except BaseException as e:  # noqa
+                    names = [c.__name__ for c in type(e).__mro__]
+                    if "SimpleDDLParserException" not in names or not all(m in str(e) for m in ("hql", "mysql", "bigquery", "sql")):
+                        V.mismatch({"problem": "unknown output_mode: wrong exception or message", "mode": bad, "ddl": ddl, "ctor": ctor, "error": [names[:3], str(e)[:200]]},
+                                   paths=["bad_mode"])
     # ---- the end-to-end composition (spec/System.tla): which exception wins, and that silent only removes the raising
     from .. import sys_check as SY
     sc, ss, st, sn = SY.leg(V, tier, seed, "C16: <=3 statements of 11 kinds, silent and raising",
